@@ -1,4 +1,7 @@
 import FeatModel.Lemmas.C04
+import FeatModel.Lemmas.C04Sparse
+import FeatModel.Lemmas.C04Blocked
+import FeatModel.Lemmas.C04Round
 /-! # C04 — vector operations equal their element-wise definitions for every vector kind
 
 All statements are about the functions of `FeatModel/Model/VecOps.lean` that `drv_c04` executes against the
@@ -230,3 +233,199 @@ theorem C04.min_abs_element_flatten {α : Type} [Field α] [LinearOrder α] [IsS
 /-- the hypotheses of the min/max theorems are satisfiable: a nested vector with a non-trivial maximum -/
 example : MVec.maxAbsElement (MVec.tupleCons (MVec.dense [(1 : Rat), -5]) (MVec.tupleOne (MVec.blocked 2 [3, 4])))
     = some 5 := by decide +kernel
+
+
+/-! ## sparse vectors: the append buffer denotes "last write wins"
+
+`runScript` is what `drv_c04` executes for the `sv`/`svb`/`svs` cases (writes through `operator()(i, v)` into the
+append buffer with first allocation / free slot / reallocation by `alloc_increment`, reads through
+`operator()(i)` which sort — `_insertion_sort`, duplicate marking with the maximal index, second sort,
+compaction of `used_elements` —, `format`, `used_elements()`), `specScript` is the same script on a partial map. -/
+
+/-- after ANY sequence of writes, reads, formats and `used_elements()` calls (any order of indices, duplicates,
+descending indices, any number of reallocations) every read returned the value written last to that index
+(zero if none), and the vector denotes the map "last write wins" -/
+theorem C04.sparse_denotes {β : Type} (fillv zero : β) (setv : β → β) (size : Nat) (hsize : 0 < size)
+    (ops : List (SOp β)) (hops : ∀ op ∈ ops, op.ok) :
+    (runScript fillv zero setv ops (SVec.empty size)).1 = (specScript zero setv ops (fun _ => none)).1 ∧
+    (∀ j, (runScript fillv zero setv ops (SVec.empty size)).2.lookup j = (specScript zero setv ops (fun _ => none)).2 j) ∧
+    (runScript fillv zero setv ops (SVec.empty size)).2.dense zero
+      = (List.range size).map (fun j => ((specScript zero setv ops (fun _ => none)).2 j).getD zero) := by
+  have hl : (SVec.empty size : SVec β).lookup = fun _ => none := funext (lookup_empty size)
+  obtain ⟨h1, h2, _, h4⟩ := runScript_spec fillv zero setv ops (SVec.empty size) (swf_empty size hsize) hops
+  rw [hl] at h1 h2
+  refine ⟨h1, h2, ?_⟩
+  have h4' : (runScript fillv zero setv ops (SVec.empty size)).2.size = size := h4
+  unfold SVec.dense
+  rw [h4']
+  exact List.map_congr_left (fun j _ => by rw [h2 j])
+
+/-- one write updates exactly one entry of the denoted map (free slot, first allocation or reallocation) -/
+theorem C04.sparse_write {β : Type} (fillv : β) (s : SVec β) (h : SWF s) (i : Nat) (v : β) (hi : i < idxMax) (j : Nat) :
+    (s.write fillv i v).lookup j = (if j = i then some v else s.lookup j) ∧ SWF (s.write fillv i v) :=
+  ⟨lookup_write fillv s h i v j, swf_write fillv s h i v hi⟩
+
+/-- `sort()` changes the layout, not the denotation; afterwards the stored indices are strictly increasing
+(no duplicates, no marked entries among the first `used_elements()`), and they are exactly the written ones -/
+theorem C04.sparse_sort {β : Type} (s : SVec β) (h : SWF s) :
+    (∀ j, s.sort.lookup j = s.lookup j) ∧ (s.sort.entries.map Prod.fst).Pairwise (· < ·) ∧
+    (∀ j, j ∈ s.sort.entries.map Prod.fst ↔ (s.lookup j).isSome) := by
+  obtain ⟨h1, h2, h3, _⟩ := sort_spec s h
+  refine ⟨h3, h1.strict h2, fun j => ?_⟩
+  rw [← h3 j, SVec.lookup, lookupLast_isSome]
+  simp
+
+/-- element read = denoted value (zero where nothing was written); the state it leaves denotes the same map -/
+theorem C04.sparse_get {β : Type} (zero : β) (s : SVec β) (h : SWF s) (i : Nat) :
+    (s.get zero i).1 = (s.lookup i).getD zero ∧ ∀ j, (s.get zero i).2.lookup j = s.lookup j :=
+  ⟨(get_spec zero s h i).1, (get_spec zero s h i).2.2.1⟩
+
+/-- `format(v)` sets exactly the written entries -/
+theorem C04.sparse_format {β : Type} (setv : β → β) (s : SVec β) (h : SWF s) (j : Nat) :
+    (s.format setv).lookup j = (s.lookup j).map setv :=
+  (format_spec setv s h).2.1 j
+
+/-- the sparse `max_abs_element()` AS CODED (index kernel over the first `size()` scalars of the value array) is
+NOT its specification (the dense kernel on the denoted vector): witness = size 5, entries {1: 2, 3: 9}; the
+code returns the fill value 4711, the specification 9 (open finding `sparse-minmax-scans-size-entries`) -/
+theorem C04.sparse_max_abs_as_coded_differs :
+    ∃ s : SVec Rat, SWF s ∧
+      (s.extremeAsCoded maxAbsElemK (fun v => [v]) 1).1 = some 4711 ∧
+      s.extremeSpec maxAbsElemK (fun v => [v]) 0 = some 9 := by
+  refine ⟨((SVec.empty 5).write 4711 1 2).write 4711 3 9, ?_, by decide +kernel, by decide +kernel⟩
+  exact swf_write _ _ (swf_write _ _ (swf_empty 5 (by decide)) 1 2 (by decide)) 3 9 (by decide)
+
+/-- same for `min_element()`: the implicit zeros are ignored (code: 2, specification: 0) -/
+theorem C04.sparse_min_as_coded_differs :
+    ∃ s : SVec Rat, SWF s ∧
+      (s.extremeAsCoded minElemK (fun v => [v]) 1).1 = some 2 ∧
+      s.extremeSpec minElemK (fun v => [v]) 0 = some 0 := by
+  refine ⟨((SVec.empty 5).write 4711 1 2).write 4711 3 7, ?_, by decide +kernel, by decide +kernel⟩
+  exact swf_write _ _ (swf_write _ _ (swf_empty 5 (by decide)) 1 2 (by decide)) 3 7 (by decide)
+
+
+/-! ## the `*_blocked` members of DenseVectorBlocked and `component_copy(_to)`
+
+The pod array of a `DenseVectorBlocked<b>` is a list; block `i`, component `j` is entry `i*b + j`.
+`column b j` (what the per-component kernels of the model run over) is exactly component `j` of every block. -/
+
+theorem C04.column_entry {α : Type} (b j : Nat) (hj : j < b) (l : List α) (i : Nat) :
+    (column b j l)[i]? = l[i * b + j]? :=
+  column_getElem? b j hj l i
+
+/-- `axpy_blocked`: `r[i][j] += a[j] * x[i][j]` for every block size and block count (no alias branch in the code) -/
+theorem C04.axpy_blocked_elementwise {α : Type} [CommRing α] (b : Nat) (a r x : List α) (k : Nat)
+    (hr : k < r.length) (hx : k < x.length) :
+    (axpyBlockedK b a r x)[k]? = some (r[k] + a.getD (k % b) 0 * x[k]) :=
+  axpyBlockedK_getElem? b a r x k hr hx
+
+/-- `scale_blocked`: `r[i][j] = x[i][j] * s[j]`, aliased (`r == x`) or not -/
+theorem C04.scale_blocked_elementwise {α : Type} [CommRing α] (al : Bool) (b : Nat) (s r x : List α) (k : Nat)
+    (hr : k < r.length) (hx : k < x.length) (hal : al = true → x = r) :
+    (scaleBlockedK al b s r x)[k]? = some (x[k] * s.getD (k % b) 0) :=
+  scaleBlockedK_getElem? al b s r x k hr hx hal
+
+/-- `dot_blocked`: component `j` of the result is the dot product of the `j`-th components (both branches) -/
+theorem C04.dot_blocked_spec {α : Type} [CommRing α] (al : Bool) (b : Nat) (x y : List α) (hal : al = true → y = x)
+    (j : Nat) (hj : j < b) :
+    (dotBlockedK al b x y)[j]? = some (List.zipWith (fun xi yi => xi * yi) (column b j x) (column b j y)).sum := by
+  unfold dotBlockedK
+  simp only [List.getElem?_map, List.getElem?_range hj, Option.map_some]
+  cases al with
+  | true =>
+    have := hal rfl; subst this
+    have h := C04.dot_alias (column b j y)
+    simp only [dotK, Bool.false_eq_true, if_true, if_false] at h
+    simp only [if_true, h, sumL_eq_sum]
+  | false => simp [sumL_eq_sum]
+
+/-- `triple_dot_blocked`: component `j` is the scalar triple-dot kernel (same four branches) on the `j`-th
+components; `C04.triple_dot_alias_*` and `C04.triple_dot_elementwise` apply to it -/
+theorem C04.triple_dot_blocked_spec {α : Type} [CommRing α] (xy xz yz : Bool) (b : Nat) (x y z : List α)
+    (j : Nat) (hj : j < b) :
+    (tdotBlockedK xy xz yz b x y z)[j]? = some (tdotK xy xz yz (column b j x) (column b j y) (column b j z)) := by
+  simp [tdotBlockedK, List.getElem?_map, List.getElem?_range hj]
+
+theorem C04.norm2sqr_blocked_spec {α : Type} [CommRing α] (b : Nat) (x : List α) (j : Nat) (hj : j < b) :
+    (norm2sqrBlockedK b x)[j]? = some ((column b j x).map fun xi => xi * xi).sum := by
+  simp [norm2sqrBlockedK, List.getElem?_map, List.getElem?_range hj, sumSq, sumL_eq_sum]
+
+theorem C04.norm2_blocked_spec {α : Type} [CommRing α] (sqrt : α → α) (b : Nat) (x : List α) (j : Nat) (hj : j < b) :
+    (norm2BlockedK sqrt b x)[j]? = some (sqrt ((column b j x).map fun xi => xi * xi).sum) := by
+  simp [norm2BlockedK, List.getElem?_map, List.getElem?_range hj, sumSq, sumL_eq_sum]
+
+/-- `max_element_blocked`: component `j` of the result is an attained maximum of component `j` over all blocks
+(the running index is reset between components and the start value is `x[0][j]`) -/
+theorem C04.maxb_spec {α : Type} [Field α] [LinearOrder α] [IsStrictOrderedRing α] (b : Nat) (x m : List α)
+    (hb : b ≤ x.length) (h : maxBlockedK b x = some m) (j : Nat) (hj : j < b) :
+    ∃ mj, m[j]? = some mj ∧ (∀ u ∈ column b j x, u ≤ mj) ∧ ∃ u ∈ column b j x, mj = u :=
+  extremeBlockedK_spec (· ≤ ·) le_refl (fun _ _ _ => le_trans) id _
+    (fun _ _ hb => le_of_lt (of_decide_eq_true hb)) (fun _ _ hb => not_lt.mp (of_decide_eq_false hb)) b x hb m h j hj
+
+theorem C04.minb_spec {α : Type} [Field α] [LinearOrder α] [IsStrictOrderedRing α] (b : Nat) (x m : List α)
+    (hb : b ≤ x.length) (h : minBlockedK b x = some m) (j : Nat) (hj : j < b) :
+    ∃ mj, m[j]? = some mj ∧ (∀ u ∈ column b j x, mj ≤ u) ∧ ∃ u ∈ column b j x, mj = u :=
+  extremeBlockedK_spec (fun u w => w ≤ u) le_refl (fun _ _ _ h₁ h₂ => le_trans h₂ h₁) id _
+    (fun _ _ hb => le_of_lt (of_decide_eq_true hb)) (fun _ _ hb => not_lt.mp (of_decide_eq_false hb)) b x hb m h j hj
+
+theorem C04.maxabsb_spec {α : Type} [Field α] [LinearOrder α] [IsStrictOrderedRing α] (b : Nat) (x m : List α)
+    (hb : b ≤ x.length) (h : maxAbsBlockedK b x = some m) (j : Nat) (hj : j < b) :
+    ∃ mj, m[j]? = some mj ∧ (∀ u ∈ column b j x, |u| ≤ mj) ∧ ∃ u ∈ column b j x, mj = |u| := by
+  have := extremeBlockedK_spec (· ≤ ·) le_refl (fun _ _ _ => le_trans) absK _
+    (fun _ _ hb => le_of_lt (of_decide_eq_true hb)) (fun _ _ hb => not_lt.mp (of_decide_eq_false hb)) b x hb m h j hj
+  simpa only [IsExt, absK_eq_abs] using this
+
+theorem C04.minabsb_spec {α : Type} [Field α] [LinearOrder α] [IsStrictOrderedRing α] (b : Nat) (x m : List α)
+    (hb : b ≤ x.length) (h : minAbsBlockedK b x = some m) (j : Nat) (hj : j < b) :
+    ∃ mj, m[j]? = some mj ∧ (∀ u ∈ column b j x, mj ≤ |u|) ∧ ∃ u ∈ column b j x, mj = |u| := by
+  have := extremeBlockedK_spec (fun u w => w ≤ u) le_refl (fun _ _ _ h₁ h₂ => le_trans h₂ h₁) absK _
+    (fun _ _ hb => le_of_lt (of_decide_eq_true hb)) (fun _ _ hb => not_lt.mp (of_decide_eq_false hb)) b x hb m h j hj
+  simpa only [IsExt, absK_eq_abs] using this
+
+/-- `component_copy(x, block)`: exactly the entries `i*b + block` (`i` < block count) are replaced by `x[i]`,
+everything else is untouched; defined for every `block < b` -/
+theorem C04.component_copy_spec {α : Type} [CommRing α] (b block : Nat) (hb : block < b) (r x : List α) (k : Nat)
+    (hk : k < r.length) :
+    ∃ r', componentCopyK b block r x = some r' ∧
+      r'[k]? = if k % b = block ∧ k / b < r.length / b then some (x.getD (k / b) 0) else r[k]? := by
+  refine ⟨(List.range (r.length / b)).foldl (fun acc i => acc.set (i * b + block) (x.getD i 0)) r, ?_, ?_⟩
+  · unfold componentCopyK; rw [if_pos hb]
+  · exact foldl_set_getElem? b block hb x 0 (r.length / b) r k hk
+
+/-- `component_copy_to(x, block)`: `x[i] = this[i*b + block]` for every block `i` -/
+theorem C04.component_copy_to_spec {α : Type} [CommRing α] (b block : Nat) (hb : block < b) (r x : List α) (i : Nat)
+    (hi : i < x.length) (hn : i < r.length / b) :
+    ∃ x', componentCopyToK b block r x = some x' ∧ x'.length = x.length ∧ x'[i]? = some (r.getD (i * b + block) 0) := by
+  refine ⟨(List.range x.length).map fun i => if i < r.length / b then r.getD (i * b + block) 0 else x.getD i 0,
+    ?_, by simp, ?_⟩
+  · unfold componentCopyToK; rw [if_pos hb]
+  · simp [List.getElem?_map, List.getElem?_range hi, hn]
+
+
+/-! ## tier B: the alias branch of axpy in floating point (standard model, unit roundoff `u`)
+
+`axpyK true` evaluates `r * (1 + a)` (two rounded operations), `axpyK false` with `x = r` evaluates `r + a * r`
+(two rounded operations); each rounded operation returns the exact value times `(1 + δ)`, `|δ| ≤ u`. -/
+
+/-- the aliased branch stays within `(2u + u²)(|r| + |a||r|)` of the exact value `r + a r` -/
+theorem C04.axpy_alias_rounding {α : Type} [Field α] [LinearOrder α] [IsStrictOrderedRing α]
+    (r a d1 d2 u : α) (h1 : |d1| ≤ u) (h2 : |d2| ≤ u) :
+    |r * ((1 + a) * (1 + d1)) * (1 + d2) - (r + a * r)| ≤ (2 * u + u ^ 2) * (|r| + |a| * |r|) :=
+  axpy_alias_branch_error r a d1 d2 u h1 h2
+
+/-- so does the generic branch on aliased operands -/
+theorem C04.axpy_generic_rounding {α : Type} [Field α] [LinearOrder α] [IsStrictOrderedRing α]
+    (r a d3 d4 u : α) (h3 : |d3| ≤ u) (h4 : |d4| ≤ u) :
+    |(r + a * r * (1 + d3)) * (1 + d4) - (r + a * r)| ≤ (2 * u + u ^ 2) * (|r| + |a| * |r|) :=
+  axpy_generic_branch_error r a d3 d4 u h3 h4
+
+/-- hence the two branches differ by at most `2(2u + u²)(|r| + |a||r|)` in floating point -/
+theorem C04.axpy_alias_vs_generic_rounding {α : Type} [Field α] [LinearOrder α] [IsStrictOrderedRing α]
+    (r a d1 d2 d3 d4 u : α) (h1 : |d1| ≤ u) (h2 : |d2| ≤ u) (h3 : |d3| ≤ u) (h4 : |d4| ≤ u) :
+    |r * ((1 + a) * (1 + d1)) * (1 + d2) - (r + a * r * (1 + d3)) * (1 + d4)|
+      ≤ 2 * ((2 * u + u ^ 2) * (|r| + |a| * |r|)) := by
+  have hA := axpy_alias_branch_error r a d1 d2 u h1 h2
+  have hB := axpy_generic_branch_error r a d3 d4 u h3 h4
+  have := abs_sub_le (r * ((1 + a) * (1 + d1)) * (1 + d2)) (r + a * r) ((r + a * r * (1 + d3)) * (1 + d4))
+  rw [abs_sub_comm (r + a * r) _] at this
+  linarith
